@@ -248,10 +248,11 @@ static void *thr_main(void *a) { struct thr *t = a; static __thread char tag[16]
 #define C(i) ((int)(AI(i) & (NSLOT - 1)))
 
 static pthread_mutex_t evmu = PTHREAD_MUTEX_INITIALIZER;
+static int at_eos[NSLOT];
 
 static void run_cmd(int ntok, char **tok) {
     const char *op = tok[0];
-    if(!strcmp(op, "ctx")) { int c = C(1); ctxs[c] = zck_create(); ev_begin("ctx"); ev_int("c", c); ev_int("ret", ctxs[c] != NULL); ev_end(); }
+    if(!strcmp(op, "ctx")) { int c = C(1); at_eos[c] = 0; ctxs[c] = zck_create(); ev_begin("ctx"); ev_int("c", c); ev_int("ret", ctxs[c] != NULL); ev_end(); }
     else if(!strcmp(op, "free")) { int c = C(1); zck_free(&ctxs[c]); ev_begin("free"); ev_int("c", c); ev_end(); }
     else if(!strcmp(op, "open")) {
         int f = C(1); const char *mode = A(3); int fl = O_RDONLY;
@@ -321,11 +322,16 @@ static void run_cmd(int ntok, char **tok) {
     }
     else if(!strcmp(op, "end_chunk")) { int c = C(1); ssize_t r = zck_end_chunk(ctxs[c]); ev_begin("end_chunk"); ev_int("ret", (long long)r); ev_ctx(c); ev_end(); }
     else if(!strcmp(op, "close")) { int c = C(1); bool r = zck_close(ctxs[c]); ev_begin("close"); ev_int("ret", r); ev_ctx(c); ev_end(); }
-    else if(!strcmp(op, "read")) {
+    else if(!strcmp(op, "read") || !strcmp(op, "readx")) {
+        /* read: a consumer reads until the stream reports its end (0) and then stops: later `read` lines of a fixed
+         * script are skipped, so that "open, every read to the end of the stream, close" is what was really executed.
+         * readx: read regardless (histories that read on after the end) */
         int c = C(1); size_t n = (size_t)AI(2);
+        if(!strcmp(op, "read") && at_eos[c]) return;
         char *b = malloc(n + 1);
         ssize_t r = zck_read(ctxs[c], b, n);
         sink_write(c, b, r);
+        if(r == 0 && n > 0) at_eos[c] = 1;
         ev_begin("read"); ev_int("n", (long long)n); ev_int("ret", (long long)r); ev_ctx(c);
         if(r > 0 && r <= 64) ev_hex("bytes", (unsigned char *)b, r);
         ev_end(); free(b);
